@@ -191,7 +191,7 @@ def run_coq_cases(tag, header, case_terms, checker, shard=300, keep_dir=None, ca
             name = "cases_%s_%d" % (tag, si)
             path = os.path.join(d, name + ".v")
             with open(path, "w") as f:
-                f.write(header + "\n")
+                f.write("From Coq Require Import ZArith List.\n" + header + "\n")
                 f.write("Definition cases %s:= [\n" % ((": list (%s) " % case_type) if case_type else "") + ";\n".join(chunk) + "\n].\n")
                 f.write("Definition results := Eval vm_compute in (map (%s) cases).\n" % checker)
                 f.write("Definition render (r : option nat) : Z := match r with None => (-1)%Z | Some n => Z.of_nat n end.\n")
